@@ -1,35 +1,3 @@
+-- The library is built module by module (see `globs` in lakefile.toml); this root file is not
+-- used as an aggregate because helper-lemma files of different properties are independent.
 import Nutree.Model.Basic
-import Nutree.Model.Iter
-import Nutree.Spec.Iter
-import Nutree.Generated.Tables
-import Nutree.Properties.C06
-import Nutree.Model.Rel
-import Nutree.Spec.Rel
-import Nutree.Properties.C10
-import Nutree.Model.Typed
-import Nutree.Properties.C15
-import Nutree.Model.Format
-import Nutree.Spec.Format
-import Nutree.Properties.C16
-import Nutree.Model.Search
-import Nutree.Properties.C09
-import Nutree.Model.Ops
-import Nutree.Spec.WF
-import Nutree.Properties.C01
-import Nutree.Properties.C02
-import Nutree.Properties.C03
-import Nutree.Properties.C04
-import Nutree.Properties.C13
-import Nutree.Properties.C07
-import Nutree.Model.Filter
-import Nutree.Properties.C08
-import Nutree.Model.World
-import Nutree.Model.Serial
-import Nutree.Properties.C05
-import Nutree.Properties.C12
-import Nutree.Properties.C14
-import Nutree.Properties.C01Move
-import Nutree.Properties.C01Data
-import Nutree.Properties.C07Copy
-import Nutree.Model.Diff
-import Nutree.Properties.C11
